@@ -293,6 +293,11 @@ def run(ctx):
             # nb[0], nb[1] are small range checks, nb[2] is too wide; after the loop `i` is 2
             ("loop-index-after-loop", head + "component nb[3]; component rb = Num2Bits(%d); var i = 0; while (i < 2) { nb[i] = Num2Bits(%d); nb[i].in <== x[i]; i++; } "
              "nb[2] = Num2Bits(%d); nb[i].in <== a; rb.in <== b; lt.in[0] <== a; lt.in[1] <== b; o <== lt.out; }" % (small, small, big), 1, 1),
+            # both inputs given as a signal array (review of ee9259e: only an inline array was examined) — at least one warning
+            ("array-input-variable", head + "lt.in <== x; o <== lt.out; }", 1, 2),
+            # a component that is LessThan on one branch and another template on the other: its inputs are inputs of LessThan on some path
+            # (review of ee9259e: the merge to `unknown` lost the two warnings)
+            ("lessthan-or-other", head + "component c; if (n == 1) { c = LessThan(8); } else { c = Other(8); } c.in[0] <== a; c.in[1] <== b; o <== c.out; }", 2, 2),
             # the value that is range checked is another expression than the input of LessThan (mechanical mutant: equality of infix
             # expressions by operator only)
             ("distinct-expressions", head + "component ra = Num2Bits(%d); component rb = Num2Bits(%d); ra.in <== a; rb.in <== b + 1; lt.in[0] <== a; lt.in[1] <== b + 2; o <== lt.out; }" % (small, small), 1, 1),
